@@ -14,9 +14,8 @@ import RcVerif.Props.C16
     redirect loop ends; a redirect to an unknown node completes the request with an error as well;
   * once, and in pipeline order: the invariants of C01/C09 hold for ALL histories, redirects included
     (`C13_once_in_order`), and a reply that arrives for a request already completed is dropped (C16).
-  Partial: the global count "at most `maxRedirects` re-sends per fragment over a whole history" is not stated as one
-  theorem over histories; it follows from `C13_followed` (counter +1 per re-send, re-send only below the bound)
-  and the fact that no other step writes the counter, which is checked by the correspondence runs, not proved.
+  The count over whole histories - no fragment is ever re-sent more than `maxRedirects` times, for any mix of MOVED
+  and ASK between any nodes - is `C13_resend_bound` in `Props/C13Bound.lean` (an invariant over `Sim.step`).
 -/
 namespace RcVerif.Props.C13
 open RcVerif RcVerif.Sim RcVerif.Merge RcVerif.Lemmas.SimInv RcVerif.Lemmas.SimBack RcVerif.Props.C01 RcVerif.Props.C03
